@@ -4,7 +4,7 @@ import math
 
 import numpy as np
 
-from .core import SimBudget, digest_arrays, digest_field, tol, ulp
+from .core import SimBudget, digest_field, tol
 
 
 
